@@ -5,6 +5,7 @@ import (
 	"errors"
 	"fmt"
 	"math"
+	"math/big"
 	"reflect"
 	"regexp"
 	"sort"
@@ -470,7 +471,29 @@ func jpfAvg(arguments []interface{}) (interface{}, error) {
 	for _, n := range args {
 		numerator += n.(float64)
 	}
+	if math.IsInf(numerator, 0) {
+		// The running total left the float64 range; the mean itself never
+		// does, so compute it exactly.
+		if total := exactSum(len(args), func(i int) float64 { return args[i].(float64) }); total != nil {
+			mean, _ := total.Quo(total, new(big.Rat).SetInt64(int64(len(args)))).Float64()
+			return mean, nil
+		}
+	}
 	return numerator / length, nil
+}
+
+// exactSum adds up n finite numbers without rounding or overflow; it
+// returns nil if one of them is not finite.
+func exactSum(n int, at func(i int) float64) *big.Rat {
+	total := new(big.Rat)
+	for i := 0; i < n; i++ {
+		item := new(big.Rat).SetFloat64(at(i))
+		if item == nil {
+			return nil
+		}
+		total.Add(total, item)
+	}
+	return total
 }
 func jpfCeil(arguments []interface{}) (interface{}, error) {
 	val := arguments[0].(float64)
@@ -618,6 +641,16 @@ func jpfSum(arguments []interface{}) (interface{}, error) {
 	sum := 0.0
 	for _, item := range items {
 		sum += item
+	}
+	if math.IsInf(sum, 0) {
+		// The running total left the float64 range: add exactly, and
+		// report a total that is not a JSON number as an error rather
+		// than returning an infinity.
+		if total := exactSum(len(items), func(i int) float64 { return items[i] }); total != nil {
+			if sum, _ = total.Float64(); math.IsInf(sum, 0) {
+				return nil, errors.New("sum() result is outside the range of JSON numbers")
+			}
+		}
 	}
 	return sum, nil
 }
